@@ -5,6 +5,7 @@ from pyvc.contract import Contract, LoopContract, HeapParam
 from pyvc import theory as T
 from pyvc import sdmodel as M
 from . import sd_inv as S
+from . import space_utils as SU
 
 SD = HeapParam("SD")
 
@@ -544,6 +545,77 @@ def install_minimal(reg):
     ))
 
 
+# ====================================================================== expand_attractor_seeds (C15, C13, C03)
+def install_attractor_seeds(reg):
+    """expand_attractor_seeds against its body. Proved: the diagram invariant and monotone extension hold on every exit (True, False,
+    RuntimeError of the motif limit, AssertionError of expand_minimal_spaces' internal check); False is returned only at the size limit with
+    the node in hand unexpanded; `successors[-1]`, `.pop()` never fail; the successor-skipping loop terminates. NOT proved here: that a
+    successor left unexpanded has no attractor of its own outside the expanded children (the reduced-STG argument; bounded stand-in only)."""
+    ST, SE = T.StackT, T.StackEntry
+    OL = TOpt(LI)
+    LS = M.LS
+
+    def common_sd(c):
+        v, o = c.sd, c.old.sd
+        return [("inv." + nm, g) for nm, g in S.inv(v)] + [("extends_entry_diagram", S.ext(v, o)),
+                                                            ("config_kept", v.cfg_max_motifs_per_node == o.cfg_max_motifs_per_node)]
+
+    def entry_ok(v, seen, ent):
+        nd, rest = SE.get(ent, 0), SE.get(ent, 1)
+        return z3.And(seen[nd], S.valid(v, nd),
+                      z3.Implies(z3.Not(OL.is_none(rest)), z3.And(
+                          v.expanded[nd], LI.len(OL.val(rest)) >= 0,
+                          z3.ForAll([b], z3.Implies(z3.And(0 <= b, b < LI.len(OL.val(rest))), S.valid(v, LI.at(OL.val(rest))[b]))))))
+
+    def shared(c):
+        v, seen, stack = c.sd, c.seen, c.stack
+        return common_sd(c) + [
+            ("root_seen", seen[0]),
+            ("seen_valid", z3.ForAll([x], z3.Implies(seen[x], S.valid(v, x)))),
+            ("stack_entries", z3.And(ST.len(stack) >= 0, z3.ForAll([a], z3.Implies(z3.And(0 <= a, a < ST.len(stack)), entry_ok(v, seen, ST.at(stack)[a]))))),
+        ]
+
+    def inv1(c):
+        v, node, succ = c.sd, c.node, c.successors
+        return shared(c) + [
+            ("node_pending", z3.And(c.seen[node], S.valid(v, node), v.expanded[node], LI.len(succ) >= 0,
+                                    z3.ForAll([a], z3.Implies(z3.And(0 <= a, a < LI.len(succ)), S.valid(v, LI.at(succ)[a]))))),
+        ]
+
+    def post(c):
+        v, r = c.sd, c.result
+        return common_sd(c) + [
+            ("false_only_at_the_size_limit_with_a_stub", z3.Implies(z3.Not(r), z3.And(
+                z3.Not(OI.is_none(c.size_limit)), v.K >= OI.val(c.size_limit), z3.Exists([x], z3.And(S.valid(v, x), z3.Not(v.expanded[x])))))),
+        ]
+
+    names_common = ["inv." + n for n in inv_names()] + ["extends_entry_diagram", "config_kept"]
+    pick = lambda fn, nm: (lambda c: dict(fn(c))[nm])
+    tr = [("S.ext_transitive", lambda c: S.ext_trans(c.sd, c.head(0).sd, c.old.sd))]
+    reg.add(Contract(
+        "biobalm._sd_algorithms.expand_attractor_seeds.expand_attractor_seeds",
+        params=[("sd", SD), ("size_limit", OI)], defaults={"size_limit": None}, result_type=TBool,
+        properties=("C15", "C13", "C03", "C01"),
+        requires=[lambda c: S.inv_all(c.sd), lambda c: c.sd.cfg_max_motifs_per_node >= 0],
+        modifies={"sd": ALLF}, may_raise={"RuntimeError": {"modifies": {"sd": ALLF}}, "AssertionError": {"modifies": {"sd": ALLF}}},
+        ensures=[(nm, pick(post, nm)) for nm in names_common + ["false_only_at_the_size_limit_with_a_stub"]],
+        raises={"RuntimeError": [(nm, pick(common_sd, nm)) for nm in names_common],
+                "AssertionError": [(nm, pick(common_sd, nm)) for nm in names_common]},
+        local_types={"seen": SI, "stack": ST, "successors": LI, "node": TInt, "s": TInt, "expanded_children": LI, "expanded_motifs": LS,
+                     "avoid": LS, "avoid_restricted": LS, "successor_space": TSpace, "retained_set": TSpace, "successor_seeds": LS},
+        ann_types={"list[tuple[int,list[int]|None]]": ST},
+        loops={0: LoopContract("while len(stack) > 0", lambda c: shared(c), havoc_heap={"sd": ALLF}, local_types={"successors": OL}),
+               1: LoopContract("while len(successors) > 0", inv1, havoc_heap={"sd": ALLF}, lemmas=tr + [
+                   ("L5.full_space_percolates_to_empty_network", lambda c: z3.ForAll([x], z3.Implies(
+                       z3.And(S.valid(c.sd, x), T.card(c.sd.space[x]) == T.nvars(S.net(c.sd))), T.PercNetObj(c.sd.net, c.sd.space[x]) == T.EmptyBN),
+                       patterns=[c.sd.space[x]]))],
+                               variant=lambda c: [LI.len(c.successors)]),
+               2: LoopContract("for x in avoid", lambda c: [("restricted_so_far", LS.len(c.avoid_restricted) == c.i)])},
+        axioms=SU.AX_INTERSECTF,
+        note="what makes a successor skippable (no seed of the reduced STG outside the expanded children) is decided by the bounded stand-in only",
+    ))
+
+
 # ====================================================================== public wrapper methods (delegation contracts)
 def install_wrappers(reg):
     """The expansion methods of SuccessionDiagram are one-line delegations.  (a) Wrappers of verified drivers inherit the driver's whole
@@ -667,10 +739,8 @@ def install_wrappers(reg):
              {"check_maa": "find_motif_avoidant_attractors"}, ("C18", "C03", "C01", "C14"),
              [("check_maa", TBool), ("recursion", TInt)], {"check_maa": True, "recursion": 0},
              "ASSUMED abstract outcome (source-SCC expansion is decided by the bounded stand-in only); the `expander` argument keeps its default")
-    delegate("expand_attractor_seeds", "biobalm._sd_algorithms.expand_attractor_seeds.expand_attractor_seeds",
-             [("size_limit", OI)], {"size_limit": None}, {"size_limit": "size_limit"}, ("C03", "C01", "C15"),
-             [("size_limit", OI)], {"size_limit": None},
-             "ASSUMED abstract outcome (attractor-seed expansion is decided by the bounded stand-in only)")
+    inherit("expand_attractor_seeds", "biobalm._sd_algorithms.expand_attractor_seeds.expand_attractor_seeds", [("size_limit", OI)],
+            {"size_limit": None}, {}, ("C03", "C01", "C15"))
 
 
     # ---- build(): block expansion with default arguments, then seeds for the expanded nodes only
